@@ -10,8 +10,10 @@ from dataclasses import dataclass, field, asdict
 
 ROOT = os.path.dirname(os.path.dirname(os.path.abspath(__file__)))
 REPO = os.environ.get("VERIF_REPO", "/repo")
-EVID = os.path.join(ROOT, "evidence")
-REPLAYS = os.path.join(ROOT, "replays")
+# VERIF_EVID_DIR: development-time override (trials against scratch worktrees must not overwrite the evidence of /repo)
+_OUT = os.environ.get("VERIF_EVID_DIR")
+EVID = os.path.join(_OUT, "evidence") if _OUT else os.path.join(ROOT, "evidence")
+REPLAYS = os.path.join(_OUT, "replays") if _OUT else os.path.join(ROOT, "replays")
 
 
 @dataclass
